@@ -1,5 +1,5 @@
 (* Properties_C05.v — a cached record lives exactly as long as its TTL and expires exactly once. *)
-From QV Require Import Base Fields SrcFacts Msg SrcDecisions Cache CacheSpec CacheProofs.
+From QV Require Import Base Fields SrcFacts Msg SrcDecisions Cache CacheSpec CacheProofs CacheAccept.
 Local Open Scope Z_scope.
 
 (* every state reached by a script of additions (TTL <= 2 000 000 s, jitter below the bound read from
@@ -84,3 +84,29 @@ Example C05_example_simultaneous :
   = [OSig 500 (ShouldQuery a) [a]; OSig 850 (ShouldQuery a) [a]; OSig 900 (ShouldQuery a) [a];
      OSig 950 (ShouldQuery a) [a]; OLookup [a]; OSig 1000 (Expired a) [b]; OLookup [b]].
 Proof. vm_compute. reflexivity. Qed.
+
+(* ------------------------------------------------------------------ the whole property, over whole histories
+   CacheSpec.mon_cache is a timer-less reference cache written from the text of C05 / C06 / C18 with the
+   properties' own constants; it judges a history together with everything observed after each operation
+   (signals with their instants and the cache content at emission, lookup results).  For EVERY history of
+   ADD (TTL 0 .. 2 000 000 s, jitter 0..19) / ADV (exact scheduling) / ADVB (caller action ahead of a
+   simultaneously due firing) / LOOKUP operations, it accepts the run of the model of cache.cpp: the expiry
+   notifications of every advance are exactly those of the records whose lifetime ends in it, each at now + TTL s,
+   in order of expiry (rejection code 2), each record gone when announced (3), and every lookup returns exactly
+   the unexpired, unreplaced records matching name/type (8) *)
+Theorem C05_every_history_is_accepted ops :
+  script_ok 0 ops -> mon_cache ops (crun_g (0, empty_cache) ops) = None.
+Proof. exact (run_accepted ops). Qed.
+Print Assumptions C05_every_history_is_accepted.
+
+(* the acceptor is not vacuous: it accepts this history's real run and rejects a run that loses the expiry,
+   one that announces a record still held, and a lookup that still returns a withdrawn record *)
+Example C05_acceptor_discriminates :
+  let a := set_ttl 1 (set_addr (A4 1) (set_type 1 (set_name (Some [97; 46]%N) default_record))) in
+  let w t := OSig t (ShouldQuery a) [a] in
+  script_ok 0 [CAdd a 0; CAdv 1000] /\
+  mon_cache [CAdd a 0; CAdv 1000] [[]; [w 500; w 850; w 900; w 950; OSig 1000 (Expired a) []]] = None /\
+  mon_cache [CAdd a 0; CAdv 1000] [[]; [w 500; w 850; w 900; w 950]] = Some (1%N, 2%N) /\
+  mon_cache [CAdd a 0; CAdv 1000] [[]; [w 500; w 850; w 900; w 950; OSig 1000 (Expired a) [a]]] = Some (1%N, 3%N) /\
+  mon_cache [CAdd a 0; CAdd (set_ttl 0 a) 0; CLookup None 255] [[]; [OSig 0 (Expired a) []]; [OLookup [a]]] = Some (2%N, 8%N).
+Proof. vm_compute. unfold ttl_ok. cbn. repeat split; try lia; try discriminate. Qed.
